@@ -5,7 +5,7 @@
    total gas wasmi saw charged by the instrumented module. *)
 From Coq Require Import List ZArith Bool.
 Import ListNotations.
-Require Import RV.Model.C46_MiniWasm.
+Require Import RV.Model.C46_MiniWasm RV.Model.C46_Meter RV.Gen.C46_weights.
 Open Scope Z_scope.
 
 Definition binop_eqb (a b : binop) : bool :=
@@ -28,7 +28,7 @@ Fixpoint instr_eqb (a b : instr) {struct a} : bool :=
   | LocalGet x, LocalGet y | LocalSet x, LocalSet y | LocalTee x, LocalTee y
   | GlobalGet x, GlobalGet y | GlobalSet x, GlobalSet y | Br x, Br y | BrIf x, BrIf y
   | Call x, Call y => Nat.eqb x y
-  | Load x, Load y | Store x, Store y | Charge x, Charge y => x =? y
+  | Load x, Load y | Store x, Store y | Charge x, Charge y | Tick x, Tick y => x =? y
   | Block x, Block y | Loop x, Loop y => list_eqb x y
   | If t e, If t' e' => list_eqb t t' && list_eqb e e'
   | _, _ => false
@@ -57,13 +57,20 @@ Fixpoint zs_eqb (x y : list Z) : bool :=
 
 Inductive obs := ObsValue (v : Z) | ObsTrap.
 Record case := mkCase {
-  k_orig : prog; k_inst : prog; k_arg : Z; k_obs : obs; k_globals : list Z; k_gas : Z }.
+  k_orig : prog; k_inst : prog; k_arg : Z; k_obs : obs; k_globals : list Z;
+  k_gas : Z;      (* total charged by the instrumented module under wasmi *)
+  k_naive : Z }.  (* total charged under wasmi by the same program with every instruction charged
+                     individually (Rules::instruction_cost) = cost of the executed path *)
+
+(* the metered-block algorithm of the model with the costs read from the code; the harness's
+   emitter declares one extra local (the store scratch) *)
+Definition meter (p : prog) : prog := meter_prog c46_cost c46_per_local 1 p.
 
 Definition FUEL : nat := Nat.pow 2 17.
 Definition MEM_CELLS : nat := 8192.
 (* the harness's modules: 3 globals initialised to 0, 7, 14; one page of memory = 8192 cells *)
 Definition init (arg budget : Z) : state :=
-  mkSt [wrap arg] [] [0; 7; 14] (repeat 0 MEM_CELLS) budget 0.
+  mkSt [wrap arg] [] [0; 7; 14] (repeat 0 MEM_CELLS) budget 0 0.
 
 (* run `main` (function 0, one parameter, one result) *)
 Definition run (p : prog) (arg budget : Z) : outcome := exec FUEL p (init arg budget) [Call 0%nat].
@@ -77,18 +84,24 @@ Definition agrees (o : outcome) (ob : obs) (gl : list Z) : bool :=
 Definition charged_of (o : outcome) : option Z :=
   match o with Normal s | Branch _ s | Ret s => Some (charged s) | _ => None end.
 
+Definition spent_of (o : outcome) : option Z :=
+  match o with Normal s | Branch _ s | Ret s => Some (spent s) | _ => None end.
+
 Definition check (c : case) : bool :=
-  (* the instrumentation only inserted charges *)
+  (* the instrumentation only inserted charges ... *)
   prog_eqb (erase_prog (k_inst c)) (k_orig c) &&
+  (* ... and exactly the charges the model of the metered-block algorithm places (positions and amounts) *)
+  prog_eqb (strip_prog (meter (k_orig c))) (k_inst c) &&
   (* the model interpreter agrees with wasmi on the original program *)
   agrees (run (k_orig c) (k_arg c) 0) (k_obs c) (k_globals c) &&
-  (* on the instrumented program: same meaning, and exactly the observed gas with an exact budget *)
-  (let o := run (k_inst c) (k_arg c) (k_gas c) in
+  (* on the metered program (with the ghost ticks): same meaning; with an exact budget it charges
+     exactly the observed gas, and the ghost counter equals the naive per-instruction total *)
+  (let o := run (meter (k_orig c)) (k_arg c) (k_gas c) in
    agrees o (k_obs c) (k_globals c) &&
-   match k_obs c, charged_of o with
-   | ObsValue _, Some g => g =? k_gas c
-   | ObsValue _, None => false
-   | ObsTrap, _ => true       (* a trapping run: wasmi's total is checked by the budget test below *)
+   match k_obs c, charged_of o, spent_of o with
+   | ObsValue _, Some g, Some sp => (g =? k_gas c) && (sp =? k_naive c)
+   | ObsValue _, _, _ => false
+   | ObsTrap, _, _ => true
    end) &&
   (* one unit less: the model runs out of gas *)
   (if 0 <? k_gas c
